@@ -413,10 +413,12 @@ func (p *proxyConn) handle() error {
 
 func (p *proxyConn) writeErrorResponse(req *http.Request, err error) error {
 	res := maybeConnectErrorResponse(err)
+	modify := p.modifyResponse
 	if res == nil {
 		res = p.errorResponse(req, err)
+		modify = p.modifyErrorResponse
 	}
-	if err := p.modifyResponse(res); err != nil {
+	if err := modify(res); err != nil {
 		log.Error(req.Context(), "error modifying error response", "error", err)
 		if !p.WithoutWarning {
 			proxyutil.Warning(res.Header, err)
